@@ -20,7 +20,8 @@ CASE_TIMEOUT = 600
 RULE = ("one virtual process (child / non-child / gone-before-the-call) or 1-6 of them; the exit instant is placed before the "
         "call, exactly on / 10 us before / 10 us after a polling instant (instants 0, 1, 3, 7, ..., 511, 911, 1311... x 0.1 ms) "
         "and on / around the deadline, or never; timeouts None, 0, negative, on/around polling instants, 5 ms - 2 s; exit codes "
-        "{0,1,2,127,255}, signals {1,6+core,9,15,34,64}; EINTR at waitpid calls {0}, {1}, {0,1}, {k}, the last poll; sequences of "
+        "{0,1,2,127,255}, signals {1,6+core,9,15,34,64}; EINTR at waitpid calls {0}, {1}, {0,1}, {k}, {2,3}, 3 random calls, a blocking "
+        "call being interrupted 0 / 10 us / 1 ms / 0.1 s / 3 s after it was entered or on / 10 us around the exit instant; sequences of "
         "wait() calls on one object (cache), direct wait_pid() calls; wait_procs over 1-6 processes with a chosen set-iteration "
         "priority (all permutations for <=3 in quick, <=4 in thorough), callback none/callable/not callable. Non-trivial = at "
         "least one poll or a returned status; distinct = distinct canonical case hash.")
@@ -28,7 +29,7 @@ TRUSTED = ["correspondence harness props/C15.py + props/_c15_vk.py (virtual kern
            "the Python transcription of the property oracle (_spec_wait/_spec_procs in props/_c15_vk.py), used on the implementation's observations",
            "waitpid(2) status word layout and kill(pid,0) semantics transcribed in coq/C15/Spec.v"]
 ASSUMPTIONS = ["virtual time: a call costs nothing, only sleep() and a blocking waitpid() advance the clock; wall-clock and scheduler latency are not modelled",
-               "an EINTR comes back at once (an interrupted blocking waitpid does not advance the clock)",
+               "a blocking waitpid returns at whichever comes first, the exit or the scheduled signal (tie: EINTR); a non-blocking call is interrupted at once",
                "no PID reuse during a wait; is_running() is answered from the same virtual process table",
                "IEEE double arithmetic of the clock is not modelled: exact run uses Fraction clock values, float run checks the oracle with 1e-9 tolerance",
                "CPython small-set iteration order (ascending hash & mask without collisions) is used to steer wait_procs' iteration order; verified per case, else the case is skipped"]
@@ -93,6 +94,12 @@ def _proc(rng, tm, need_end=False, pid=4242, eintr_ok=True):
     e = []
     if eintr_ok and rng.random() < 0.3:
         e = rng.choice([[0], [1], [0, 1], [rng.randrange(0, 14)], [2, 3], sorted(rng.sample(range(0, 16), 3))])
+        if rng.random() < (0.7 if tm is None else 0.35):
+            # a blocking waitpid is interrupted some time after it was entered: before / at / after the exit
+            dl = [F(0), EPS, F(1, 1000), F(1, 10), F(3)]
+            if ex is not None:
+                dl += [max(F(0), ex), max(F(0), ex - EPS), max(F(0), ex + EPS)]
+            e = [[i, q(rng.choice(dl))] for i in e]
     return {"pid": pid, "kind": kind, "exit": None if ex is None else q(ex), "status": st, "eintr": e}
 
 
@@ -135,6 +142,18 @@ def gen_cases(rng, tier):
                             p = {"pid": 4242, "kind": kind, "exit": q(ex), "status": ["code", 3], "eintr": []}
                             cases.append({"kind": "wait", "cls": "grid-" + kind, "proc": p, "start": q(0),
                                           "ops": [["wait", q(tm)]]})
+    # a blocking wait() interrupted before / exactly at / after the exit instant
+    if tier != "search":
+        for T in (F(1, 1000), F(1, 10), F(1)):
+            for idxs in ([0], [0, 1], [1], [0, 1, 2]):
+                for dly in (F(0), EPS, T - EPS, T, T + EPS, T / 2, F(3)):
+                    for kind in ("child", "nonchild"):
+                        if kind == "nonchild" and dly not in (F(0), T):
+                            continue
+                        p = {"pid": 4242, "kind": kind, "exit": q(T), "status": ["sig", 15, False],
+                             "eintr": [[i, q(dly)] for i in idxs]}
+                        cases.append({"kind": "wait", "cls": "block-eintr-" + kind, "proc": p, "start": q(0),
+                                      "ops": [["wait", None], ["wait", q(0)]]})
     for _ in range(n_wait):
         shape = rng.random()
         start = rng.choice([F(0)] * 3 + [F(5, 7), F(10001, 10), F(123456789, 1000)])
@@ -223,8 +242,10 @@ def gstatus(s):
 
 def gproc(p):
     kind = {"child": "Child", "nonchild": "NonChild", "never": "NeverExisted"}[p["kind"]]
-    return "(mk_proc %s %s %s %s [%s])" % (G.z(p["pid"]), kind, gopt(p["exit"]), gstatus(p["status"]),
-                                           "; ".join("%d%%nat" % i for i in p["eintr"]))
+    ei = []
+    for e in p["eintr"]:
+        ei.append("(%d%%nat, %s)" % ((e, "0%Q") if isinstance(e, int) else (e[0], gq(e[1]))))
+    return "(mk_proc %s %s %s %s [%s])" % (G.z(p["pid"]), kind, gopt(p["exit"]), gstatus(p["status"]), "; ".join(ei))
 
 
 def coq_term(case):
@@ -263,7 +284,7 @@ def coq_struct(case, raw):
         return {"model": {"exc": exc, "gone": sorted(gone) if exc is None else [], "alive": sorted(alive) if exc is None else [],
                           "rc": sorted(rc, key=lambda x: x[0]), "cbs": cbs, "sleeps": sleeps, "ret": ret, "waits": waits,
                           "float": "ok"},
-                "partition_ok": part, "spec": None}
+                "oracle_ok": part, "spec": None}
     raise ValueError(k)
 
 
@@ -295,6 +316,9 @@ def judge(case, coq, impl):
         # wall-clock limit of the worker (machine load), not an answer of the implementation: an implementation
         # that never returns is detected in virtual time (Hang after 4000 sleeps / 20000 kernel calls)
         raise RuntimeError("worker wall-clock limit hit on %r" % (case,))
+    # theorems C15_wait_meets_oracle / C15_wait_procs_meets_oracle: the model's own run satisfies the oracle
+    if (k == "wait" and not all(coq["lenient"])) or (k == "procs" and coq["oracle_ok"] is not True):
+        raise RuntimeError("the model's run violates its own oracle (contradicts a theorem) on %r" % (case,))
     if k == "wait":
         fails = VK.spec_ops(case, impl["ops"], strict=True, tol=0)
         if impl["float"] != "ok":
@@ -348,16 +372,17 @@ def impl_run(case, coq, env):
 
 
 MANIFEST = {
-    "text": "Theorems (Coq, over exact rational virtual time, for every exit instant, timeout, process kind, exit status and EINTR placement): "
-            "status decoding (code c -> c, signal s -> -s); a returned status/None is never early; TimeoutExpired(timeout, pid) only at or after "
-            "the deadline, less than 40 ms late, and -- on EINTR-free schedules -- with the process alive (the EINTR case is refuted with a "
-            "witness: known finding); the k-th sleep is min(2^k/10000, 1/25), timeout=0 never sleeps, negative timeout -> ValueError; "
-            "no failure other than ValueError for a negative timeout / pid <= 0, a hang only for timeout=None on a child that never ends; the cached value is returned without a kernel call for any kernel; wait_procs partitions its "
-            "input, sets returncode and calls the callback exactly once per gone process and returns before timeout + 40 ms, for every "
-            "iteration order. The model is tied to the code by running the real psutil over a virtual kernel/clock on placements of the exit "
-            "instant on and around every polling instant and the deadline and comparing outcome, every sleep() argument, the return instant "
-            "and the waitpid-call count.",
-    "note": "Not proved: the fuel (termination) bound of the polling loops -- theorems hold for every fuel, whatever came back. Trusted: Coq kernel + vm_compute; hand-written model coq/C15/Model.v (tied by the correspondence run only); kernel semantics in "
+    "text": "22 theorems (Coq, exact rational virtual time, for every exit instant, timeout, process kind, exit status and EINTR placement incl. a blocking "
+            "waitpid interrupted at any instant): status decoding; a returned status/None is never early; TimeoutExpired(timeout, pid) only at or after the "
+            "deadline, less than 40 ms late, and -- on EINTR-free schedules -- with the process alive (EINTR case refuted with a witness: known finding); "
+            "k-th sleep = min(2^k/10000, 1/25), timeout=0 never sleeps, negative timeout -> ValueError; TERMINATION: with a timeout ceil(25*timeout)+12 "
+            "loop steps suffice for every causal kernel, without a timeout the call returns iff the exit instant is finite, wait_procs needs at most "
+            "len(procs)+ceil(timeout)+1 rounds; the cached value is returned without a kernel call; wait_procs partitions its input, sets returncode and "
+            "calls the callback exactly once per gone process and returns before timeout + 40 ms for every iteration order; ORACLES: the boolean oracles "
+            "spec_wait / spec_procs that the harness applies to the implementation are theorems of the model's runs. The model is tied to the code by "
+            "running the real psutil over a virtual kernel/clock on placements of the exit instant on and around every polling instant and the deadline "
+            "and comparing outcome, every sleep() argument, the return instant and the waitpid-call count.",
+    "note": "Not stated: termination of wait_procs without a timeout. Trusted: Coq kernel + vm_compute; hand-written model coq/C15/Model.v (tied by the correspondence run only); kernel semantics in "
             "coq/C15/Spec.v; harness (virtual kernel/clock, fake /proc, Python transcription of the oracle); CPython, IEEE doubles. "
             "Wall-clock behaviour is outside the model.",
 }
